@@ -17,9 +17,20 @@ type Cache struct {
 
 // clientEntries holds entries of client details sent to the service.
 type clientEntries struct {
-	replayMap map[time.Time]replayCacheEntry
+	replayMap map[replayKey]replayCacheEntry
 	seqNumber int64
 	subKey    types.EncryptionKey
+}
+
+// replayKey identifies an authenticator of a client: its time (including microseconds) and the service it was sent to.
+type replayKey struct {
+	cTime time.Time
+	sName string
+}
+
+// clientKey returns the key of the client's entries in the cache: the client's principal name and realm.
+func clientKey(a types.Authenticator) string {
+	return a.CName.PrincipalNameString() + "@" + a.CRealm
 }
 
 // Cache entry tracking client time values of tickets sent to the service.
@@ -61,20 +72,20 @@ func (c *Cache) AddEntry(sname types.PrincipalName, a types.Authenticator) {
 // addEntry adds an entry to the Cache. The caller must hold the write lock.
 func (c *Cache) addEntry(sname types.PrincipalName, a types.Authenticator) {
 	ct := a.CTime.Add(time.Duration(a.Cusec) * time.Microsecond)
-	ce, ok := c.entries[a.CName.PrincipalNameString()]
+	ce, ok := c.entries[clientKey(a)]
 	if !ok {
 		ce = clientEntries{
-			replayMap: make(map[time.Time]replayCacheEntry),
+			replayMap: make(map[replayKey]replayCacheEntry),
 		}
 	}
-	ce.replayMap[ct] = replayCacheEntry{
+	ce.replayMap[replayKey{cTime: ct, sName: sname.PrincipalNameString()}] = replayCacheEntry{
 		presentedTime: time.Now().UTC(),
 		sName:         sname,
 		cTime:         ct,
 	}
 	ce.seqNumber = a.SeqNumber
 	ce.subKey = a.SubKey
-	c.entries[a.CName.PrincipalNameString()] = ce
+	c.entries[clientKey(a)] = ce
 }
 
 // ClearOldEntries clears entries from the Cache that are older than the duration provided.
@@ -99,11 +110,9 @@ func (c *Cache) IsReplay(sname types.PrincipalName, a types.Authenticator) bool 
 	ct := a.CTime.Add(time.Duration(a.Cusec) * time.Microsecond)
 	c.mux.Lock()
 	defer c.mux.Unlock()
-	if ce, ok := c.entries[a.CName.PrincipalNameString()]; ok {
-		if e, ok := ce.replayMap[ct]; ok {
-			if e.sName.Equal(sname) {
-				return true
-			}
+	if ce, ok := c.entries[clientKey(a)]; ok {
+		if _, ok := ce.replayMap[replayKey{cTime: ct, sName: sname.PrincipalNameString()}]; ok {
+			return true
 		}
 	}
 	c.addEntry(sname, a)
